@@ -1,5 +1,6 @@
 """C10 nearest-neighbour structures (DESIGN §4 C10)."""
 from vt.pipeline import Query
+from vt.props.common_spaces import RNG_ENV
 
 CLAIM = ('NearestNeighborsLinear<int> and NearestNeighborsSqrtApprox<int> (real code incl. std::function distance and std::sort/partial_sort) '
          'run from ARBITRARY contents of N elements (symbolic ids with duplicates) under EVERY non-negative integer-valued distance table: '
@@ -21,4 +22,10 @@ def queries(tier):
                 qs.append(Query('%s_%s[n=%d]' % ('sqrtapprox' if sq else 'linear', e, n), 'C10_linear.cpp', 'harness_' + e,
                                 defines={'N': n, 'U': 4, 'SQRT': sq, 'VT_VEC_CAP': n + 4}, stdmodel=('vec',), unwind=(n + 6) if e in ('nearest_k', 'nearest_r') else max(n, 4) * 4 + 8, timeout=to, checks='none',
                                 bound='N=%d stored elements over 4 ids, every distance table with entries in [0,7]' % n))
+    # GNAT: inductive steps on one tree node (C10_gnat.cpp)
+    for sz in ([2, 3] if tier == 'quick' else [2, 3, 4]):
+        for e, kn in (('visit_r', 0), ('visit_k', 1), ('visit_k', 2), ('add', 0)):
+            if tier == 'quick' and sz == 3 and e == 'visit_k' and kn == 1: continue
+            qs.append(Query('gnat_%s[children=%d%s]' % (e, sz, ',k=%d' % kn if kn else ''), 'C10_gnat.cpp', 'harness_' + e, defines={'SZ': sz, 'KNN': kn or 2}, cxxflags=RNG_ENV, new_cap=64, unwind=sz + 5, timeout=to, checks='none',
+                            bound='one node with %d children, every metric with integer distances in [0,7] on query, pivots and one subtree element, every conservative range/radius table with entries in [0,15]%s' % (sz, ', k=%d with 0..k earlier neighbours' % kn if kn else '')))
     return qs
